@@ -241,10 +241,14 @@ pub fn validate_cbor_local(schema: &str, bytes: &[u8], feats: Option<&[&str]>) -
 }
 
 pub fn validate_csv(schema: &str, csv: &str, header: Option<bool>) -> V {
+  validate_csv_feat(schema, csv, header, None)
+}
+
+pub fn validate_csv_feat(schema: &str, csv: &str, header: Option<bool>, feats: Option<&[&str]>) -> V {
   use cddl::validator::csv_validator::Error as E;
   use cddl::validator::json::Error as JE;
   let _w = in_call(|| serde_json::json!({"call": "validate_csv_from_str", "schema": schema, "csv": csv}).to_string());
-  match guard(|| cddl::validate_csv_from_str(schema, csv, header, None)) {
+  match guard(|| cddl::validate_csv_from_str(schema, csv, header, feats)) {
     Err(p) => V::Panic(p),
     Ok(Ok(())) => V::Ok,
     Ok(Err(E::Validation(l))) => {
@@ -380,7 +384,12 @@ pub fn reset_worker() {
 }
 
 pub fn worker_call(kind: &str, schema: &str, doc: &[u8]) -> V {
-  let req = serde_json::json!({"k": kind, "s": schema, "d": crate::cbor::hex(doc)}).to_string();
+  worker_call_feat(kind, schema, doc, None)
+}
+
+/// kinds json / cbor / csv0 (header None) / csv1 (header Some(true)) honour `feats`
+pub fn worker_call_feat(kind: &str, schema: &str, doc: &[u8], feats: Option<&[&str]>) -> V {
+  let req = serde_json::json!({"k": kind, "s": schema, "d": crate::cbor::hex(doc), "f": feats}).to_string();
   let limit = CALL_LIMIT_MS.load(std::sync::atomic::Ordering::Relaxed);
   WORKER.with(|cell| {
     let mut slot = cell.borrow_mut();
@@ -469,11 +478,15 @@ pub fn worker_main() {
       };
       let schema = j["s"].as_str().unwrap_or("");
       let doc = crate::cbor::unhex(j["d"].as_str().unwrap_or(""));
+      let fowned: Option<Vec<String>> = j["f"].as_array().map(|a| a.iter().filter_map(|x| x.as_str().map(|s| s.to_string())).collect());
+      let frefs: Option<Vec<&str>> = fowned.as_ref().map(|v| v.iter().map(|s| s.as_str()).collect());
+      let feats: Option<&[&str]> = frefs.as_deref();
       let v = match j["k"].as_str().unwrap_or("") {
-        "json" => validate_json_local(schema, &String::from_utf8_lossy(&doc), None),
-        "cbor" => validate_cbor_local(schema, &doc, None),
-        "csv0" => validate_csv(schema, &String::from_utf8_lossy(&doc), Some(false)),
-        "csv1" => validate_csv(schema, &String::from_utf8_lossy(&doc), Some(true)),
+        "json" => validate_json_local(schema, &String::from_utf8_lossy(&doc), feats),
+        "cbor" => validate_cbor_local(schema, &doc, feats),
+        "csv0" => validate_csv_feat(schema, &String::from_utf8_lossy(&doc), Some(false), feats),
+        "csvn" => validate_csv_feat(schema, &String::from_utf8_lossy(&doc), None, feats),
+        "csv1" => validate_csv_feat(schema, &String::from_utf8_lossy(&doc), Some(true), feats),
         "parse" => parse_all_local(&doc),
         "decode" => match guard(|| cddl::validator::cbor_value::decode_cbor(&doc).map(|_| ())) {
           Err(p) => V::Panic(p),
